@@ -267,10 +267,15 @@ def run_cases(specs, nproc=None, chunk=4):
         return []
     if nproc == 1 or len(specs) == 1:
         return _run_chunk(specs)
+    from .pool import robust_map
+
     chunks = [specs[i:i + chunk] for i in range(0, len(specs), chunk)]
+
+    def failed(ch, why):     # the driver process died or hung on this chunk: every case of it is a crash
+        return [{**{k: v for k, v in s.items() if k != "plan"}, "mdl": MDL_strip(s["mdl"]),
+                 "events": [{"e": "error", "op": "driver", "cls": "DriverProcessFailure", "msg": why}]} for s in ch]
+
     out = []
-    with ProcessPoolExecutor(max_workers=min(nproc, len(chunks)), mp_context=get_context("spawn"),
-                             initializer=_worker_init) as ex:
-        for res in ex.map(_run_chunk, chunks):
-            out.extend(res)
+    for res in robust_map(_run_chunk, chunks, nproc, failed, initializer=_worker_init):
+        out.extend(res)
     return out
